@@ -22,11 +22,30 @@ UNITS = {
     'unitI': {'spec': 'unitI.vrs'},
     'unitE': {'spec': 'unitE.vrs'},
     'unitJ': {'spec': 'unitJ.vrs', 'expanded': True},
+    'unitN': {'spec': 'unitN.vrs'},
     'unitF': {'spec': 'unitF.vrs', 'expanded': True, 'threads': 8},
     'unitC': {'spec': 'unitC.vrs', 'expanded': True, 'threads': 16, 'timeout': 2400},
 }
 
 PROPS = {
+    'C13': {
+        'units': ['unitN'],
+        'assumptions': ['A-deps', 'A-arena', 'A-std', 'A-iter', 'A-extract', 'A-verus'],
+        'rules': 'R1 (warn!) R2 R4 (loop bodies, `continue` -> `return Ok(())`, suffix Ok(())) R4c R6; panic mode: absent',
+        'claimed': [
+            'parse_name_section, one loop body per name map (functions, types, memories, tables, data segments, element segments, globals; real text): the entity that the INPUT index denotes in the parse-time index map gets exactly that name; no other entity of any kind changes; an index that denotes nothing changes nothing; a decoding error aborts with nothing changed',
+            'local names (two nested loop bodies, real text): the function index is resolved through the function map and each local index through THAT function\'s local map; empty names are skipped only under generate_synthetic_names_for_anonymous_items',
+        ],
+        'unclaimed': [
+            'emit_name_section (iterator-adapter chains over hash maps, sort_by_key, wasm_encoder name maps) and the module-name arm: bounded stand-in only',
+            'the composition of the loops (A-iter) and that parse_name_section runs after all index maps are complete (fixed by F8, covered by the stand-in)',
+        ],
+        'standins': [
+            {'fn': 'parse_name_section + emit_name_section end to end', 'argv': ['names'],
+             'bound': 'hand-written modules with full and partial name sections for every entity kind (imported and local entities, functions reordered by size, locals compacted, entities removed by gc before named ones, duplicate type merging) x {emit, gc+emit}: every name of the output is attached to the entity that carried it in the input (entities identified independently of indices)',
+             'why': 'emit_name_section is iterator adapters over hash maps end to end'},
+        ],
+    },
     'C15': {
         'units': ['unitJ'],
         'obligations': ['J.ir.', 'J.fb.', 'J.sb.', 'J.gen.', 'J.lf.', 'C.ir.from.'],
